@@ -315,11 +315,11 @@ func session(r *hx.Run, rng *gen.Rng, id string, sub uint32, disableMouse bool, 
 		}
 		time.Sleep(2 * time.Millisecond)
 		if fc.CloseCalls == 0 {
-			r.Emit(fmt.Sprintf("closeby signal %d %d", bi(cnv), bi(clv)), "hang")
+			r.Emit(fmt.Sprintf("closeby signal %d %d %d %d %d", bi(cnv), bi(clv), crow, ccol, cstyle), "hang")
 			r.Count("signal-close-hang")
 			return nil
 		}
-		r.Emit(fmt.Sprintf("closeby signal %d %d", bi(cnv), bi(clv)), hx.Hex(string(fc.Take())))
+		r.Emit(fmt.Sprintf("closeby signal %d %d %d %d %d", bi(cnv), bi(clv), crow, ccol, cstyle), hx.Hex(string(fc.Take())))
 	}
 	return nil
 }
@@ -369,11 +369,11 @@ func panicSession(r *hx.Run, id string, mask uint32, dm bool) error {
 	}
 	r.Emit("bytes0", j(before)) // start-up + SetAppID + a frame, in one piece: only fed to the mode terminal
 	if code == 4 || !seenP {
-		r.Emit("closeby panic 1 1", "nopanic")
+		r.Emit("closeby panic 1 1 2 2 6", "nopanic")
 		r.Count("panic-not-provoked")
 		return nil
 	}
-	r.Emit("closeby panic 1 1", j(after))
+	r.Emit("closeby panic 1 1 2 2 6", j(after))
 	r.Count("panic-sessions")
 	return nil
 }
